@@ -504,7 +504,7 @@ func (x *Enc) binop(fr *frame, b *ssa.BasicBlock, op token.Token, a, c Val, ta, 
 		switch op {
 		case token.ADD:
 			res := app("strcat", l, r)
-			x.sc.assert(eq(app("strlen", res), app("+", app("strlen", l), app("strlen", r))))
+			// length of a concatenation: prelude axiom on strcat
 			return one(res)
 		case token.LSS, token.LEQ, token.GTR, token.GEQ:
 			x.sc.declFun("strless", []string{"Int", "Int"}, "Bool")
